@@ -39,6 +39,18 @@ def _install():
         return out
 
     clc.CouplingLevyCopulaSimulation._coupling_states_for_a_slice = slice_
+    # the coarse increment chosen for EACH fine jump (top-level calls of the private, name-mangled method)
+    name = "_CouplingLevyCopulaSimulation__coupling_state"
+    o_state = getattr(clc.CouplingLevyCopulaSimulation, name, None)
+    if o_state is not None:
+        def coupling_state(self, increment, axis_coordinates=None):
+            out = o_state(self, increment, axis_coordinates)
+            wd = rngseam.ACTIVE
+            if axis_coordinates is None and wd is not None and getattr(wd, "c15", None) is not None:
+                wd.c15.setdefault("coarse_jumps", []).append(np.array(out, dtype=float, copy=True))
+            return out
+
+        setattr(clc.CouplingLevyCopulaSimulation, name, coupling_state)
     _installed = True
 
 
@@ -156,6 +168,7 @@ def execute(wd, sc):
     for p in range(npaths):
         phase.update(name="path", poisson_idx=0, path=p)
         d0, c0, k0 = len(wd.draws), len(wd.c15["chain"]), len(wd.c15["coarse"])
+        j0 = len(wd.c15.get("coarse_jumps", []))
         try:
             path = process.simulate_one_path_with_coupling() if coupled else process.simulate_one_path()
         except HarnessError:
@@ -186,8 +199,15 @@ def execute(wd, sc):
         incs = recs[0][1][0]
         sizes = np.array([[axes[k][origin[k] + inc[k]] for k in range(dim)] for inc in incs], dtype=float).reshape(len(incs), dim)
         cumj = np.cumsum(sizes, axis=0).T if len(incs) else np.zeros((dim, 0))
-        coarse = wd.c15["coarse"][k0:] if coupled else None
-        cumc = (np.array(coarse[0], dtype=float).T if coarse and len(coarse[0]) else np.zeros((dim, 0))) if coupled else None
+        cumc = None
+        if coupled:
+            # running sum of the per-jump coarse increments (independent of the library's own accumulation)
+            cj = wd.c15.get("coarse_jumps", [])[j0:]
+            if len(cj) != len(incs):
+                add(f"C15.counts|number of coupled coarse increments differs from the number of fine jumps|{cls}",
+                    {"path": p, "coarse_increments": len(cj), "fine_jumps": len(incs)})
+                continue
+            cumc = np.cumsum(np.array(cj, dtype=float).reshape(len(cj), dim), axis=0).T if len(cj) else np.zeros((dim, 0))
         fine_j = jumps[0] if coupled else jumps
         fine_d = diff[0] if coupled else diff
         if times.size == 0 or times[0] != 0.0 or np.any(jumps[..., 0] != 0.0) or np.any(diff[..., 0] != 0.0):
